@@ -13,6 +13,15 @@ from . import parsercorr
 from .runloop import NS
 
 
+def quiet_unawaited():
+    """the generated programs create coroutine objects they never await, on purpose; CPython reports that when the
+    object is collected, which can be long after the run"""
+    warnings.filterwarnings('ignore', message='coroutine .* was never awaited', category=RuntimeWarning)
+
+
+quiet_unawaited()
+
+
 def parse_example(text, lineno=1):
     from xdoctest import core
     with warnings.catch_warnings():
@@ -35,12 +44,12 @@ def run_example(ex):
     ex.global_namespace = ns
     err = None
     summary = None
-    try:
-        with warnings.catch_warnings():
-            warnings.simplefilter('ignore')
+    with warnings.catch_warnings():
+        warnings.simplefilter('ignore')
+        try:
             summary = ex.run(on_error='return', verbose=0)
-    except BaseException as e:   # noqa
-        err = '%s: %s' % (type(e).__name__, e)
+        except BaseException as e:   # noqa
+            err = '%s: %s' % (type(e).__name__, e)
     saved = ns.saved if ns.saved is not None else dict(ns)
     return {'T': list(T), 'logged': dict(ex.logged_stdout), 'ns': P.canon_bindings(saved, injected),
             'summary': summary, 'error': err,
@@ -175,7 +184,7 @@ FIRSTS = [('assign', None, None), ('assign', '+ELLIPSIS', None), ('print', None,
           ('directive', None, None), ('expr', None, 'want'), ('comment', None, None)]
 
 
-def family_pairs(shard, nshards, lasts=('none', 'expr-want')):
+def family_pairs(shard, nshards, lasts=('none', 'expr-want', 'self-want')):
     """EVERY kind in every prompt style after every kind of predecessor (plain, with an inline
     directive, with a want, a block directive, a comment), optionally followed by a final expression
     with a want: the places where a chunk can be cut"""
@@ -190,18 +199,34 @@ def family_pairs(shard, nshards, lasts=('none', 'expr-want')):
                     if term and not (kind in P.COMPOUND and style == 'old'):
                         continue
                     for last in lasts:
-                        for indent in ('', '    '):
+                        if last == 'self-want' and not (P.value_want(P.Stmt(kind, 0, ref=0)) and not term
+                                                        and not (kind == 'multiexpr' and style != 'new')):
+                            continue
+                        # a new example directly after a want may start at ANY column
+                        layouts = [(0, 0), (4, 0), (0, 4), (2, 3)] if fw == 'want' else [(0, 0)]
+                        for indent, (sh1, sh2) in [(a, b) for a in ('', '    ') for b in layouts]:
                             i += 1
                             if i % nshards != shard:
                                 continue
                             stmts = []
                             if fk in ('directive', 'comment'):
                                 stmts.append(P.Stmt('assign', 0, 'new'))
+                            ref = None
+                            if kind in P.DEF_FOR:
+                                stmts.append(P.Stmt(P.DEF_FOR[kind], len(stmts), 'old'))
+                                ref = stmts[-1].k
                             s1 = P.Stmt(fk, len(stmts), 'new', inline=inline)
                             stmts.append(s1)
-                            stmts.append(P.Stmt(kind, len(stmts), style, term))
+                            # every third case of a kind that may carry one: an inline directive on the statement itself
+                            inl2 = '+ELLIPSIS' if (kind in P.INLINE_OK and i % 3 == 0) else None
+                            s2 = P.Stmt(kind, len(stmts), style, term, inline=inl2, ref=ref)
+                            stmts.append(s2)
                             if last == 'expr-want':
                                 stmts.append(P.Stmt('expr', len(stmts), 'new'))
+                            for st in stmts:
+                                st.shift = sh1
+                                if st is s1:
+                                    sh1 = sh2      # everything after the first want sits in the second column
                             prog = P.Program(stmts, indent)
                             outs = P.per_statement_stdout(prog)
                             if any(o is None for o in outs):
@@ -214,6 +239,9 @@ def family_pairs(shard, nshards, lasts=('none', 'expr-want')):
                                     acc = ''
                                 if last == 'expr-want' and s is stmts[-1]:
                                     s.want = acc.rstrip('\n').split('\n') if acc.strip() else ['%d' % s.k]
+                                if last == 'self-want' and s is s2:
+                                    s.want = acc.rstrip('\n').split('\n') if acc.strip() else [P.value_want(s)]
+                                    acc = ''
                             out.append(prog)
     return out
 
@@ -225,7 +253,7 @@ def _worker(args):
     if name == 'random':
         progs = family_random(seed, shard, params['count'], **params.get('kw', {}))
     elif name == 'pairs':
-        progs = family_pairs(shard, nshards, params.get('lasts', ('none', 'expr-want')))
+        progs = family_pairs(shard, nshards, params.get('lasts', ('none', 'expr-want', 'self-want')))
     else:
         raise KeyError(name)
     buf = io.StringIO()
